@@ -19,7 +19,7 @@ CRITERIA = ['AIC', 'AICc', 'KIC', 'FPE', 'AKICc', 'MDL']
 
 def bounds(tier):
     q = tier == 'quick'
-    return {'lattice': 'ZR(1)^N 4<=N<=%d, ZR(2)^N 4<=N<=%d, ZI(1)^N N<=%d, ZC5^N 4<=N<=%d' % ((6, 4, 5, 4) if q else (7, 5, 6, 5)),
+    return {'lattice': 'ZR(1)^N 4<=N<=%d, ZR(2)^N 4<=N<=%d, ZI(1)^N N<=%d, ZC5^N 4<=N<=%d' % ((6, 4, 5, 4) if q else (8, 6, 7, 6)),
             'families_N': [8, 9, 16] if q else [8, 9, 16, 33, 64, 200], 'orders': 'all 1..min(N-2,30)', 'criteria': [None] + CRITERIA}
 
 
@@ -34,14 +34,18 @@ def _alpha(name):
 def shards(tier):
     q = tier == 'quick'
     out = []
-    for name, lo, hi in (('ZR1', 4, 6 if q else 7), ('ZR2', 4, 4 if q else 5), ('ZI1', 4, 5 if q else 6), ('ZC5', 4, 4 if q else 5)):
+    for name, lo, hi in (('ZR1', 4, 6 if q else 8), ('ZR2', 4, 4 if q else 6), ('ZI1', 4, 5 if q else 7), ('ZC5', 4, 4 if q else 6)):
         for n in range(lo, hi + 1):
             alpha, _ = _alpha(name)
-            if len(alpha) ** n > 700:
+            if len(alpha) ** n > 5000:
                 for first in range(len(alpha)):
-                    out.append(('lat', name, n, first))
+                    for second in range(len(alpha)):
+                        out.append(('lat', name, n, [first, second]))
+            elif len(alpha) ** n > 700:
+                for first in range(len(alpha)):
+                    out.append(('lat', name, n, [first]))
             else:
-                out.append(('lat', name, n, None))
+                out.append(('lat', name, n, []))
     for N in ([8, 9, 16] if q else [8, 9, 16, 33, 64, 200]):
         for cplx in (False, True):
             out.append(('gen', N, cplx, 0))
@@ -53,8 +57,8 @@ def run_shard(desc, R, tier):
     if desc[0] == 'lat':
         _, name, n, first = desc
         alpha, dt = _alpha(name)
-        it = itertools.product(alpha, repeat=n) if first is None else (
-            (alpha[first],) + t for t in itertools.product(alpha, repeat=n - 1))
+        pre = tuple(alpha[i] for i in first)
+        it = (pre + t for t in itertools.product(alpha, repeat=n - len(pre)))
         for s in it:
             x = np.array(s, dtype=dt)
             if not np.any(x):
